@@ -64,6 +64,21 @@ Definition path_spec (g : adjl) (s t : nat) (im : path_impl) : list (option (lis
           | None => bad end);
     Some [flat_map (fun j => zpaths (shortest_paths g s j)) (seq 0 n)] ].
 
+(* ---- the two reconstruction entry points called directly (C07: they take vertex indices themselves).  The predecessor table handed
+   in is the one the search from s computes (from vertex 0 when s is out of range - the call has to be rejected before looking at it) ---- *)
+Definition direct_path (strict : bool) (g : adjl) (s t : nat) : outcome (list nat) :=
+  checked strict (length g) [s; t]
+   (if Nat.eqb s t then Val [s] else
+    obind (bfs_single strict g s) (fun o => obind (reached (bo_dist o) t) (fun r => match r with Some k => path_from_preds (S k) (bo_pred o) s t | None => Raise RuntimeError end))).
+Definition direct_paths (strict once : bool) (fuel : nat) (g : adjl) (s t : nat) : outcome (list (list nat)) :=
+  checked strict (length g) [s; t]
+   (if Nat.eqb s t then Val [[s]] else obind (bfs_all strict once fuel g s) (fun o => all_paths_from_preds fuel (ao_preds o) s t)).
+Definition path_case_x (strict once : bool) (fuel : nat) (g : adjl) (s t : nat) : list (list (list Z)) :=
+  path_case strict once fuel g s t ++ [ zerr (fun p => [zpath p]) (direct_path strict g s t); zerr (fun ps => [zpaths ps]) (direct_paths strict once fuel g s t) ].
+Definition path_spec_x (g : adjl) (s t : nat) (im : path_impl) : list (option (list (list Z))) :=
+  let rej := if Nat.ltb s (length g) && Nat.ltb t (length g) then None else Some [[zexn OutOfRange]] in
+  path_spec g s t im ++ [rej; rej].
+
 (* ---- Dijkstra cases ---- *)
 Definition wadj_of (g : @dgraph Z) : Dj.wadj :=
   map (fun il => map (fun j => (j, Z.to_N (lget (fst il, j) (labels g)))) (snd il)) (combine (seq 0 (length (adj g))) (adj g)).
